@@ -209,6 +209,18 @@ def check_case(case, ctx):
     if st_ == "exc":
         raise Violation("C15/filter/raised", "%s: paranoia_mode raised %r" % (what, F))
     outputs = [("returned dict", F)]
+    # records that hold only the address sections (what bip44()/bip49()/bip84() give, or a record whose MASTER / BIP85 part the
+    # caller already dropped) are filtered like any other record
+    only_sections = {sec: json.loads(json.dumps(U[sec])) for sec in SECTIONS}
+    st_, F2 = call(M.paranoia_mode, only_sections)
+    if st_ == "ok":
+        outputs.append(("filter applied to a record holding only the three address sections", F2))
+    one = {"BIP84": json.loads(json.dumps(U["BIP84"]))}
+    st_, F3 = call(M.paranoia_mode, data=one)
+    if st_ == "ok":
+        judge_output("C15/leak", "%s, filter applied to a record holding only the BIP84 section" % what, F3, U, secrets, scalars, ctx)
+        if not isinstance(F3, dict) or json.loads(json.dumps(F3.get("BIP84"))) != json.loads(json.dumps(F["BIP84"])):
+            raise Violation("C15/identity/public-data-changed", "%s: filtering the BIP84 section alone gives %r" % (what, str(F3)[:200]))
     st_, js = call(w.json, F)
     if st_ == "exc":
         raise Violation("C15/json/raised", "%s: json(filtered) raised %r" % (what, js))
@@ -245,6 +257,18 @@ def check_case(case, ctx):
         st_, e = call(w.export_wallet, fp, 4, F)
         if st_ == "exc":
             raise Violation("C15/export/raised", "%s: export_wallet(filtered) raised %r" % (what, e))
+        # the filtered record saved under a directory that does not exist yet: refused, or saved - filtered
+        fp_new = os.path.join(tmp, "backups", "2026", "w.json")
+        st_, e = call(w.export_wallet, fp_new, 4, F) if account % 2 else call(w.export_wallet, file_path=fp_new, data=F)
+        if os.path.exists(fp_new):
+            with open(fp_new) as f:
+                t2 = f.read()
+            try:
+                outputs.append(("export_wallet() into a directory that did not exist", json.loads(t2)))
+            except ValueError:
+                raise Violation("C15/export/not-json", "%s: export into a missing directory left %d characters that are not JSON" % (what, len(t2)))
+        else:
+            ctx.count("export-into-missing-directory:" + ("refused" if st_ == "exc" else "nothing-written"))
         with open(fp) as f:
             text = f.read()
         try:
